@@ -128,7 +128,11 @@ def run_tlc(module, cfg=None, cwd=SPEC, workers=8, timeout=900, env=None, simula
     try:
         r = subprocess.run(cmd, cwd=cwd, env=e, capture_output=True, text=True, timeout=timeout)
     except subprocess.TimeoutExpired:
+        shutil.rmtree(meta, ignore_errors=True)          # (the state files of an abandoned run can take tens of gigabytes)
         raise Infra("TLC timeout (%ss) on %s %s" % (timeout, module, cfg))
+    except BaseException:
+        shutil.rmtree(meta, ignore_errors=True)
+        raise
     res = TlcResult()
     res.wall = time.time() - t0
     res.rc = r.returncode
